@@ -10,6 +10,7 @@
 package evstore
 
 import (
+	"bytes"
 	"context"
 	"errors"
 	"fmt"
@@ -86,11 +87,13 @@ func TestVerifC20(t *testing.T) {
 			"checked by porcupine (no eviction) or the structural order checker (eviction); every 8th of them instead closes a session that holds most of the budget in thousands of streams while other sessions append and resize, then probes every surviving stream, and another every 8th fills the store to exactly its limit and releases 2-8 spinning appenders at one moment (20 rounds), checking the byte bound at every quiescent point. non-trivial: sequential history with >=1 eviction observed or >=1 SessionClosed followed by appends; " +
 			"concurrent history with >=2 overlapping operations on one stream. distinct = distinct (op-kind sequence, eviction pattern) / (overlap pattern) signatures",
 		MinNontrivial: 50,
-		Assumptions: []string{"indices passed to After are >= -1", "limits >= 1 (SetMaxBytes(0) means default and is exercised only as 'very large')",
+		Assumptions: []string{"indices passed to After are >= -1", "limits >= 1 in the random histories (SetMaxBytes(0) means the default of 10 MiB and is exercised there only as 'very large'; three directed cases per thousand hold more than that under a raised limit and then go back to the default)",
 			"a porcupine search that does not finish in 15 s is counted (porcupine_timeouts) and decides nothing; the structural checker still runs on that history"},
 	}
 	vh.Run(t, cfg, func(c *vh.Case) {
 		switch {
+		case c.Index < nSeq && c.Index%1000 == 501:
+			defaultLimitCase(c)
 		case c.Index < nSeq && c.Index%10 == 9:
 			longStreamCase(c)
 		case c.Index < nSeq:
@@ -1114,4 +1117,99 @@ func pow10(n int) int {
 		p *= 10
 	}
 	return p
+}
+
+// defaultLimitCase: the limit is raised well above the default, 12..30 MiB are held in 1-3 streams, and the limit
+// is then set back to the default with SetMaxBytes(0) (or lowered to a value in between): the bound must hold for
+// the configured maximum whichever way it was configured. Retained bytes are measured through After only.
+func defaultLimitCase(c *vh.Case) {
+	r := c.R
+	ctx := context.Background()
+	s := mcp.NewMemoryEventStore(nil)
+	const MiB = 1 << 20
+	s.SetMaxBytes(64 * MiB)
+	nStr := r.Range(1, 3)
+	logs := make([][][]byte, nStr)
+	total, target, last := 0, r.Range(12, 30)*MiB, 0
+	for n := 0; total < target; n++ {
+		k := r.Intn(nStr)
+		d := make([]byte, r.Range(MiB/4, 3*MiB))
+		copy(d, fmt.Sprintf("item-%d-", n))
+		if err := s.Append(ctx, "S", fmt.Sprintf("t%d", k), d); err != nil {
+			c.Violate("append-error", "Append: %v", err)
+			return
+		}
+		logs[k] = append(logs[k], d)
+		total += len(d)
+		last = len(d)
+	}
+	retained := func() (int, bool) {
+		sum := 0
+		for k := range logs {
+			first := -1
+			for idx := -1; idx < len(logs[k]); idx++ {
+				n, purged, bad := 0, false, false
+				for d, err := range s.After(ctx, "S", fmt.Sprintf("t%d", k), idx) {
+					if err != nil {
+						purged = errors.Is(err, mcp.ErrEventsPurged)
+						bad = !purged
+						break
+					}
+					if idx+1+n >= len(logs[k]) || !bytes.Equal(d, logs[k][idx+1+n]) {
+						c.Violate("after-mismatch", "default-limit case: After(t%d,%d) item %d is not what was appended", k, idx, n)
+						return 0, false
+					}
+					n++
+				}
+				if bad {
+					c.Violate("after-unexpected-error", "default-limit case: After(t%d,%d) failed with something other than the purge report", k, idx)
+					return 0, false
+				}
+				if !purged {
+					if n != len(logs[k])-idx-1 {
+						c.Violate("after-mismatch", "default-limit case: After(t%d,%d) yielded %d items, %d were appended after it", k, idx, n, len(logs[k])-idx-1)
+						return 0, false
+					}
+					first = idx + 1
+					break
+				}
+			}
+			if first < 0 {
+				first = len(logs[k])
+			}
+			for _, d := range logs[k][first:] {
+				sum += len(d)
+			}
+		}
+		return sum, true
+	}
+	if got, ok := retained(); !ok {
+		return
+	} else if got != total {
+		c.Violate("purged-below-limit", "default-limit case: %d bytes appended under a limit of 64 MiB, only %d retained", total, got)
+		return
+	}
+	how, want := "SetMaxBytes(0)", 10*MiB
+	if r.Chance(1, 3) {
+		want = r.Range(9, 11) * MiB
+		how = fmt.Sprintf("SetMaxBytes(%d)", want)
+		s.SetMaxBytes(want)
+	} else {
+		s.SetMaxBytes(0)
+	}
+	if s.MaxBytes() != want {
+		c.Violate("maxbytes", "MaxBytes()=%d after %s", s.MaxBytes(), how)
+		return
+	}
+	got, ok := retained()
+	if !ok {
+		return
+	}
+	if got > want+last {
+		c.Violate("over-limit", "after %s the configured maximum is %d bytes, yet %d bytes are still replayable (held before: %d, most recent item %d)", how, want, got, total, last)
+		return
+	}
+	c.Count("default_limit_cases", 1)
+	c.Seen("limit_set_by", strings.SplitN(how, "(", 2)[0]+map[bool]string{true: "(0)", false: "(n)"}[how == "SetMaxBytes(0)"])
+	c.Nontrivial(fmt.Sprintf("default-limit/%s/%d/%d", how, nStr, total/MiB))
 }
